@@ -1,6 +1,7 @@
 package drive
 
 import (
+	"math"
 	"bytes"
 	"context"
 	"encoding/json"
@@ -316,8 +317,21 @@ func streamHCheck(t *testing.T, o *Out) {
 				}
 			}
 		}
-		depth := []int{0, 0, 0, 3, 1, -1, 50, 6, 7, 2}[r.Intn(10)]
+		// request depths: absent, binding, negative, above the global limit, and values beyond
+		// 32 bits in the query string (they mean the global limit like every value above it;
+		// the gRPC field is an int32, there the same request is the one without a depth)
+		depth := []int{0, 0, 0, 3, 1, -1, 50, 6, 7, 2, 4294967298, 4294967297}[r.Intn(12)]
+		gdepth := int32(0)
+		if depth <= math.MaxInt32 {
+			gdepth = int32(depth)
+		}
+		// batch sizes: every size up to the configured maximum (10), the larger ones (more
+		// entries than the batch parallelisation limit, odd counts, exactly the maximum) included
 		k := 1 + r.Intn(5)
+		if r.Intn(5) < 2 {
+			k = 6 + r.Intn(5)
+		}
+		o.Count(fmt.Sprintf("batch-size:%d", k))
 		entries := make([]hEntry, k)
 		for j := range entries {
 			tt := env.genTuple(r, objs, subs)
@@ -396,10 +410,10 @@ func streamHCheck(t *testing.T, o *Out) {
 			c2, b2, _ := env.do(env.read, "GET", check.OpenAPIRouteBase+"?"+q+dq, nil)
 			c3, b3, _ := env.do(env.read, "POST", check.RouteBase+"?"+strings.TrimPrefix(dq, "&"), body)
 			c4, b4, _ := env.do(env.read, "POST", check.OpenAPIRouteBase+"?"+strings.TrimPrefix(dq, "&"), body)
-			gr, gerr := env.chk.Check(env.ctx, &rts.CheckRequest{Tuple: protoTuple(en.t), MaxDepth: int32(depth)})
+			gr, gerr := env.chk.Check(env.ctx, &rts.CheckRequest{Tuple: protoTuple(en.t), MaxDepth: gdepth})
 			// the deprecated flat form of the same request (fields of the request instead of `tuple`)
 			pt := protoTuple(en.t)
-			gr2, gerr2 := env.chk.Check(env.ctx, &rts.CheckRequest{Namespace: pt.Namespace, Object: pt.Object, Relation: pt.Relation, Subject: pt.Subject, MaxDepth: int32(depth)})
+			gr2, gerr2 := env.chk.Check(env.ctx, &rts.CheckRequest{Namespace: pt.Namespace, Object: pt.Object, Relation: pt.Relation, Subject: pt.Subject, MaxDepth: gdepth})
 			if g1, g2 := grpcCanon(gr.GetAllowed(), gerr), grpcCanon(gr2.GetAllowed(), gerr2); g1 != g2 {
 				gr, gerr = gr2, gerr2
 				o.Count("grpc-flat-differs")
@@ -437,7 +451,7 @@ func streamHCheck(t *testing.T, o *Out) {
 				rest = strings.Join(parts, ";")
 			}
 		}
-		gb, gerr := env.chk.BatchCheck(env.ctx, &rts.BatchCheckRequest{Tuples: ps, MaxDepth: int32(depth)})
+		gb, gerr := env.chk.BatchCheck(env.ctx, &rts.BatchCheckRequest{Tuples: ps, MaxDepth: gdepth})
 		grpcB := "err:" + grpcCanon(false, gerr)
 		if gerr == nil {
 			var parts []string
